@@ -142,10 +142,18 @@
 
 (define (list . l) l)
 
+;; `slow` follows `fast` at half its speed: the two can only meet
+;; if the cdr chain loops, and a circular list has no length.
 (define (length list)
-    (cond
-      ((null? list) 0)
-      (else (+ (length (cdr list)) 1))))
+    (let loop ((fast list) (slow list) (n 0))
+      (cond
+        ((null? fast) n)
+        ((null? (cdr fast)) (+ n 1))
+        (else
+          (let ((fast (cddr fast)) (slow (cdr slow)))
+            (if (and (pair? fast) (eq? fast slow))
+                (error "length: circular list")
+                (loop fast slow (+ n 2))))))))
 
 (define (memq obj list)
     (cond
